@@ -58,7 +58,7 @@ For each change k in 1..3: `k/patch.diff` (`git diff` of the source change only,
 `git apply` at the repo root), `k/demo_test.go` (the demonstration, starting with a header comment that gives the package
 directory it belongs in and the exact `go test -run` command), `k/notes.md` (what the change is, what it needs in order
 to manifest, the commands you ran and their outcomes with and without the change, and the `-run` regex of the demo).
-After saving each patch revert the source (`git checkout -- .` inside {wt} only) before the next one. Finish with a
+After saving each patch revert the source (`git checkout -- .` inside {wt} only) before the next one. NEVER use `git stash` (the stash is shared between worktrees and other people are working in sibling worktrees); to set a change aside use `git diff > file` and `git apply -R file`. Finish with a
 short report: for each change one line `k | package dir of demo | -run regex | one-sentence description | what it needs`.
 """
     open(os.path.join(wt, "_TASK.md"), "w").write(text)
